@@ -166,7 +166,7 @@ func runC03(c *Ctx) {
 		cur := map[string]bool{}
 		ok := true
 		doList := func(set []string, pfx, d string, v2 bool, finger string) {
-			q := ListReq{Bucket: bucket, HasPrefix: pfx != "" || c.Rng.Intn(2) == 0, Prefix: pfx, HasDelim: d != "", Delim: d, V2: v2, ClampedMaxKeys: 1000}
+			q := ListReq{Bucket: bucket, HasPrefix: pfx != "" || c.Rng.Intn(2) == 0, Prefix: pfx, HasDelim: d != "" || c.Rng.Intn(2) == 0, Delim: d, V2: v2, ClampedMaxKeys: 1000}
 			line, lo := r.List(q)
 			before := c.NMism
 			_, spec := r.judgeProj(line, lo.Obs, finger, ident, listProj)
